@@ -11,4 +11,4 @@ new,n=re.subn(sys.argv[2],sys.argv[3],src,count=1)
 if n!=1: sys.exit("mutation did not apply")
 open(sys.argv[4],'w').write(new)
 PY
-/verif/bin/govc "$@" --overlay /repo/$f=$d/mut.go
+${GOVC:-/verif/bin/govc} "$@" --overlay /repo/$f=$d/mut.go
